@@ -32,6 +32,8 @@ impl CheckpointState {
             .duration_since(UNIX_EPOCH)
             .map(|d| d.as_secs())
             .unwrap_or(0);
+        #[cfg(neumann_verif)]
+        let created_at = verif_clock::get().unwrap_or(created_at);
 
         Self {
             id,
@@ -292,6 +294,27 @@ pub struct CheckpointInfo {
     pub size: usize,
     /// Short label of the triggering operation, if auto-created.
     pub trigger: Option<String>,
+}
+
+/// Verification-only clock override for `CheckpointState::created_at` (compiled only with
+/// `--cfg neumann_verif`). With the cfg off, or with no value set, nothing changes.
+#[cfg(neumann_verif)]
+pub mod verif_clock {
+    use std::sync::atomic::{AtomicU64, Ordering};
+
+    static CLOCK_SECS: AtomicU64 = AtomicU64::new(u64::MAX);
+
+    /// `Some(secs)` freezes the checkpoint clock at `secs`; `None` restores the wall clock.
+    pub fn set(secs: Option<u64>) {
+        CLOCK_SECS.store(secs.unwrap_or(u64::MAX), Ordering::SeqCst);
+    }
+
+    /// The frozen value, if any.
+    #[must_use]
+    pub fn get() -> Option<u64> {
+        let v = CLOCK_SECS.load(Ordering::SeqCst);
+        (v != u64::MAX).then_some(v)
+    }
 }
 
 #[cfg(test)]
